@@ -137,6 +137,16 @@ theorem tms_data_tokens (parts : List (Nat × Str))
     Text.split (' ' :: (parts.map fun p => rjust p.1 p.2).flatten) = parts.map (·.2) :=
   Midgard.Writers.split_rjust_cells parts h
 
+/-- The overflow the layout allows (finding `sinex_tms:column-overflow:EAST/NORTH/UP`): an east
+component of −100 000 m fills its `12.4f` cell, merges with the value before it, and the line
+splits into one token fewer than it has columns. -/
+theorem tms_overflow_witness :
+    ((tmsLine ["YEAR", "EAST"] [("YEAR", .num (4047 / 2)), ("EAST", .num (-100000))]).map
+      fun l => (Text.split l).length) = some 1 ∧
+    ((tmsLine ["YEAR", "EAST"] [("YEAR", .num (4047 / 2)), ("EAST", .num (-99999))]).map
+      fun l => (Text.split l).length) = some 2 := by
+  decide +kernel
+
 /-! ### non-vacuity -/
 
 example : allFit (rowOf "bernese_crd")
@@ -157,3 +167,4 @@ end Midgard.Props.C17
 #print axioms Midgard.Props.C17.data_types_modelled
 #print axioms Midgard.Props.C17.estimate_keys_distinct
 #print axioms Midgard.Props.C17.tms_data_tokens
+#print axioms Midgard.Props.C17.tms_overflow_witness
